@@ -159,6 +159,21 @@ class Sandbox:
                 os.unlink(p)
         elif op == "MKDIR":
             os.makedirs(os.path.join(self.root, step["path"]), exist_ok=True)
+        elif op == "LINKOUT":
+            # the output path becomes a symlink or a hard link to a precious file outside the output tree:
+            # replace-by-rename leaves the precious file alone, writing in place would go through the link
+            victim = os.path.join(self.root, step["victim"])
+            os.makedirs(os.path.dirname(victim), exist_ok=True)
+            with open(victim, "w") as f:
+                f.write("precious %s\n" % step["victim"])
+            p = os.path.join(self.root, step["path"])
+            os.makedirs(os.path.dirname(p), exist_ok=True)
+            if os.path.lexists(p):
+                os.unlink(p)
+            if step["kind"] == "symlink":
+                os.symlink(os.path.relpath(victim, os.path.dirname(p)), p)
+            else:
+                os.link(victim, p)
         elif op == "TOUCH":
             p = os.path.join(self.root, step["path"])
             if os.path.exists(p):
